@@ -50,6 +50,12 @@ def observe(st, pt, fn, *a, **k):
     return st.last.get(fn)
 
 
+def fresh_str(rng, s):
+    """half of the option strings are equal-but-not-identical objects, as a program gets them from a config file, a
+    command line or JSON (a literal in source code is interned; a run-time built string is not)"""
+    return ''.join(list(s)) if rng.random() < 0.5 else s
+
+
 def window(mz1, tol, ttype):
     off = tol if ttype == 'th' else mz1 * tol / 1e6
     return mz1 - off, mz1 + off
@@ -73,7 +79,7 @@ def gen_lists(rng):
         return sorted(vals)
     theo = one(rng.randint(0, 30) if rng.random() < 0.9 else 0)
     obs = one(rng.randint(0, 30) if rng.random() < 0.9 else 0)
-    ttype = rng.choice(['ppm', 'th'])
+    ttype = fresh_str(rng, rng.choice(['ppm', 'th']))
     r = rng.random()
     if ttype == 'th':
         tol = 0.0 if r < 0.15 else rng.choice([0.25, 0.5, 0.1, 0.01, 1.0, 2.5, 50.0]) if r < 0.8 else rng.uniform(0, 3)
@@ -98,7 +104,7 @@ def check_matching(ctx, st, pt, theo, obs, tol, ttype, grid, rng):
         ctx.violation('matched-index-ranges-differ', {'case': case, 'expected': exp, 'observed': got})
         return
     inten = [round(rng.uniform(0, 100), 1) if rng.random() < 0.8 else rng.choice([10.0, 50.0]) for _ in obs]
-    for mode in ('all', 'closest', 'largest'):
+    for mode in (fresh_str(rng, 'all'), fresh_str(rng, 'closest'), fresh_str(rng, 'largest')):
         got = observe(st, pt, 'match_spectra', list(theo), list(obs), tol, ttype, mode, list(inten))
         ctx.decided()
         bad = None
@@ -170,7 +176,7 @@ def fragment_level(ctx, st, pt, rng):
         # fragments rebuilt from their dictionary form carry the parent as text instead of an annotation object
         import dataclasses
         frags = [dataclasses.replace(f, parent_sequence=seq_text) for f in frags]
-    ttype = rng.choice(['ppm', 'th'])
+    ttype = fresh_str(rng, rng.choice(['ppm', 'th']))
     tol = rng.choice([0.0, 0.01, 0.5, 2.0]) if ttype == 'th' else rng.choice([0.0, 10.0, 500.0, 5000.0])
     peaks = set()
     for f in rng.sample(frags, min(len(frags), rng.randint(0, 8))):
@@ -182,7 +188,7 @@ def fragment_level(ctx, st, pt, rng):
     peaks = list(peaks)
     rng.shuffle(peaks)
     inten = [round(rng.uniform(1, 100), 1) for _ in peaks]
-    mode = rng.choice(['all', 'closest', 'largest'])
+    mode = fresh_str(rng, rng.choice(['all', 'closest', 'largest']))
     shuffled = list(frags)
     rng.shuffle(shuffled)
     one_spectrum(ctx, st, pt, rng, seq, seq_text, frags, shuffled, list(peaks), list(inten), tol, ttype, mode, False)
